@@ -341,3 +341,8 @@ CHECKS['C17']['text'] += (
 CHECKS['C02']['text'] += (
     " Clock2r.v (partial, named so): the same clock invariant with the resume option of pre-emptive capacitated slots, in the scope without queue capacities (nobody is ever blocked, every stored time_left >= 0): event_step_clk2r_partial / run_many_clk2r_partial; "
     "resume for priority pre-emption and pre-emptive Schedules is NOT covered (it needs the server <-> customer link inside the event).")
+CHECKS['C11']['text'] += (
+    " Inversion2.v (3 270 lines): run_many_invJ / run_many_noinv / NoInv_means - the FIRST clause of the property as an invariant over runs: at every node with a pre-emptive priority option and fixed servers, after any number of events no customer without a server "
+    "waits while a customer of strictly larger priority number holds a server, nobody waits while a server is idle, queue index = priority, in the executable scope inv_scope (no capacities; priority pre-emption only at fixed-server nodes, not reroute; no pre-emptive "
+    "Schedules / capacitated slots) - INCLUDING class change while waiting, class-change matrices, reneging, all routers, LIFO / SIRO; noinv_refuted_preemptive_schedule and noinv_refuted_overtime are closed witnesses of the two NEW open findings F-11c and F-11d "
+    "(found by this proof, reproduced on the real engine, corpus), noinv_refuted_blocked_class_change of the F-02a family.")
